@@ -121,9 +121,8 @@ class Session:
             # a periodic save happens now; saving must not change the gateway's behaviour
             pers = self.driver.gw.tasks.persistence
             if pers is not None:
-                pers.need_save = True
                 try:
-                    pers.save_sensors()
+                    pers.save_sensors()  # a tick of the periodic schedule: writes if the state is marked unsaved
                 except Exception as exc:  # pylint: disable=broad-except
                     raise Clause({"crash", "state", "sleep", "wake", "reply"}, f"save_raises.{type(exc).__name__}", f"a periodic save raised {exc!r}") from exc
                 self._check_state("after a periodic save")
@@ -136,8 +135,7 @@ class Session:
             if pers is None or self._scratch is None:
                 return None
             try:
-                pers.need_save = True
-                pers.save_sensors()
+                pers.save_sensors()  # what stop() does: the final save relies on the unsaved mark
                 new = drive.Driver(self.version, old.flavour, snapshot_in_callback=old.snapshot_in_callback, persistence=True, persistence_file=self._pfile)
                 new.gw.tasks.persistence.safe_load_sensors()
             except Exception as exc:  # pylint: disable=broad-except
@@ -455,6 +453,8 @@ class Session:
                 fams.add("ids")
             if inbound is not None and inbound[2] == T.SET:
                 fams.add("reboot")
+            if inbound is not None and inbound[2] == T.STREAM:
+                fams.add("ota")  # a reply to a firmware request the model says must be ignored (or the reverse)
         raise Clause(
             fams, "wake_burst_mismatch" if exp.wake is not None else "reply_mismatch",
             f"step {inbound if inbound else 'controller call'}: emitted {[codec.encode(g) for g in got]}, prescribed {[codec.encode(w) for w in want]} (last {exp.free_tail} in any order; ack not compared)",
